@@ -196,12 +196,35 @@ def run_c18(tier, seed):
         o = cases[hid][line - 1]
         return '%s:%s' % (o['op'], o['key'][2])
     new = report('C18', verdicts, lambda hid: cases[hid], site, 'history')
+    apalache = None
+    if not quick:
+        # optional extra: inductive invariant with Apalache (one step from ANY state satisfying IndInv, arbitrary key and
+        # value sets up to the Gen bounds) - an argument that does not depend on the instance TLC enumerated
+        import subprocess
+        apalache = {}
+        adir = os.path.join(tlc.SPEC_DIR, 'apalache')
+        outd = tempfile.mkdtemp(prefix='verif_apa_')
+        try:
+            for init, inv, length in (('Init', 'IndInv', '0'), ('IndInit', 'IndInv', '1'), ('IndInit', 'WriteOnceStep', '1'),
+                                      ('IndInit', 'KeyIsolationStep', '1'), ('IndInit', 'FailedLeavesUnsaved', '1'),
+                                      ('IndInit', 'LoadFaithful', '1')):
+                try:
+                    p = subprocess.run(['apalache-mc', 'check', '--cinit=CInit', '--init=' + init, '--inv=' + inv, '--length=' + length,
+                                        '--out-dir=' + outd, 'ArtifactStoreApa.tla'], cwd=adir, capture_output=True, text=True, timeout=600)
+                    apalache['%s=>%s' % (init, inv)] = 'NoError' if 'The outcome is: NoError' in p.stdout else 'FAILED'
+                except (OSError, subprocess.TimeoutExpired) as ex:
+                    apalache['%s=>%s' % (init, inv)] = 'not run: %s' % type(ex).__name__
+        finally:
+            shutil.rmtree(outd, ignore_errors=True)
+        if any(v == 'FAILED' for v in apalache.values()):
+            raise tlc.TLCError('Apalache found the inductive invariant of ArtifactStoreApa.tla violated: %r' % apalache)
     nops = sum(len(h['ops']) for h in hist)
     distinct = len({json.dumps(h['ops'], sort_keys=True) for h in hist})
     write_evidence('C18', tier, seed, 'model_checking', {
         'states': mc.get('distinct', 0) + st.get('distinct', 0), 'transitions': mc.get('generated', 0) + st.get('generated', 0),
         'traces_validated_against_impl': len(hist), 'operations': nops, 'distinct_histories': distinct,
         'model_instance': '3 keys x 3 values x 2 formats, exhaustive: %d distinct states' % mc.get('distinct', 0),
+        'apalache_inductive': apalache,
         'samples': [hist[0]['ops'][:8], hist[len(hist) // 2]['ops'][:8]],
     }, t0, new, ['values are tokens mapped to fixed Python objects (equality of the loaded object decides the token)',
                  'TLC 1.8, CommunityModules Json'])
